@@ -205,6 +205,9 @@ type sClient struct {
 	conn  net.Conn
 	br    *bufio.Reader
 	quit  chan struct{}
+	// connMu guards conn/br: in the race tier a worker goroutine may still be inside run() when the
+	// environment is closed and the client's own goroutine closes the connection
+	connMu sync.Mutex
 }
 
 type sysEnv struct {
@@ -604,15 +607,19 @@ func (c *sClient) loop() {
 			c.env.mu.Unlock()
 			c.env.net.Bump()
 		case <-c.quit:
+			c.connMu.Lock()
 			if c.conn != nil {
 				c.conn.Close()
 			}
+			c.connMu.Unlock()
 			return
 		}
 	}
 }
 
 func (c *sClient) dropConn() {
+	c.connMu.Lock()
+	defer c.connMu.Unlock()
 	if c.conn != nil {
 		c.conn.Close()
 		c.conn, c.br = nil, nil
@@ -674,15 +681,26 @@ func (c *sClient) run(ex *exchange) {
 
 func (c *sClient) runOnce(ex *exchange) {
 	env := c.env
-	if c.conn == nil {
+	c.connMu.Lock()
+	have := c.conn != nil
+	c.connMu.Unlock()
+	if !have {
 		conn, err := env.net.Dial(fmt.Sprintf("client%d", c.id), c.addr, heliosAddr, 0, c.quit)
 		if err != nil {
 			ex.dialErr = err.Error()
 			return
 		}
+		c.connMu.Lock()
 		c.conn, c.br = conn, bufio.NewReader(conn)
+		c.connMu.Unlock()
 	}
-	conn := c.conn
+	c.connMu.Lock()
+	conn, cbr := c.conn, c.br
+	c.connMu.Unlock()
+	if conn == nil {
+		ex.dialErr = "connection closed under the client (environment is shutting down)"
+		return
+	}
 	got := &gotResp{}
 	// writer: head, then the body in pieces
 	proceed := make(chan struct{})
@@ -775,7 +793,7 @@ func (c *sClient) runOnce(ex *exchange) {
 	}
 	// reader
 	for {
-		resp, err := http.ReadResponse(c.br, &http.Request{Method: ex.method})
+		resp, err := http.ReadResponse(cbr, &http.Request{Method: ex.method})
 		if err != nil {
 			got.err = "read-response: " + err.Error()
 			<-wdone
